@@ -26,7 +26,7 @@ fn main() {
     }
     let (shards, sizes) = match args.tier {
         Tier::Quick => (16, c03::Sizes { builder_families: 1, harness_families: 2, starts_per_family: 2, tamperings_per_start: 60 }),
-        Tier::Thorough => (64, c03::Sizes { builder_families: 3, harness_families: 5, starts_per_family: 3, tamperings_per_start: 260 }),
+        Tier::Thorough => (64, c03::Sizes { builder_families: 2, harness_families: 4, starts_per_family: 3, tamperings_per_start: 140 }),
     };
     vcore::run_shards(&mut mon, shards, threads, |s, m| c03::run_shard(s, m, &sizes));
     mon.finish(
